@@ -55,19 +55,31 @@ class Check(core.PropertyCheck):
     def mon_constants(self, tier):
         return {"EditOff": EDIT}
 
+    GROUPS = {"raw": RAW, "seq": ("dns", "http1"), "h2": ("http2",), "paired": PAIRED}
+
     def _consts(self, group, tier):
+        """raw: one flow, MaxN messages; the others: two request/response flows.  quick keeps the dumped graphs small
+        (http2, whose streams interleave freely, gets 2 user actions); thorough dumps MaxUser=3 everywhere and checks
+        larger instances without dumping."""
         raw = group == "raw"
         big = tier == "thorough"
-        return {"Protos": frozenset(RAW if raw else PAIRED), "MaxN": (3 if big else 2) if raw else 4,
-                "NFlows": 1 if raw else 2, "Decisions": frozenset(DECISIONS), "MaxUser": 4 if big and not raw else 3,
-                "EditOff": EDIT}
+        if raw:
+            maxuser = 3
+        elif group == "h2":
+            maxuser = 3 if big else 2
+        else:
+            maxuser = 4 if group == "paired" else 3
+        return {"Protos": frozenset(self.GROUPS[group]), "MaxN": (3 if big else 2) if raw else 4,
+                "NFlows": 1 if raw else 2, "Decisions": frozenset(DECISIONS), "MaxUser": maxuser, "EditOff": EDIT}
 
     def model_constants(self, tier):
         return self._consts("paired", tier)
 
+    DUMPED = ("raw", "seq", "h2")
+
     def model_runs(self, ctx):
-        runs = [ctx.model_check(self.MODEL, self._consts("raw", "quick"), dump=True, tag="_raw"),
-                ctx.model_check(self.MODEL, self._consts("paired", "quick"), dump=True, tag="_paired")]
+        runs = [ctx.model_check(self.MODEL, self._consts(g, ctx.tier) | ({"MaxN": 2} if g == "raw" else {}), dump=True,
+                                tag="_" + g) for g in self.DUMPED]
         if not ctx.quick:
             runs.append(ctx.model_check(self.MODEL, self._consts("raw", "thorough"), dump=False, tag="_rawbig"))
             runs.append(ctx.model_check(self.MODEL, self._consts("paired", "thorough"), dump=False, tag="_pairedbig"))
@@ -108,7 +120,7 @@ class Check(core.PropertyCheck):
         return core.Scenario({"proto": proto, "plan": plan, "ops": ops}, predicted=pred, source=source)
 
     def scenarios(self, ctx, models):
-        for m, cap in zip(models[:2], (900, 2300)):
+        for m, cap in zip(models[:3], (900, 1300, 1000)):
             g = m.graph
             behs = g.edge_cover(ctx.rng, max_len=24, tail=12)
             ctx.notes.setdefault("edge_cover_paths", []).append(len(behs))
